@@ -398,6 +398,13 @@ func (ex *Exec) Run() (v *Violation, harnessErr string) {
 	ex.buggifyEOF = ex.cfg.Prealloc && ex.cfg.Granule%3 == 0 && false
 	for {
 		ex.sim = sched.New(ex.tape)
+		if n := len(ex.plan.Ops); n > 60 {
+			// the observation after each operation reads the whole log: the work of a
+			// generation grows with the square of the plan length (deep runs of the
+			// thorough tier); the budget that separates "long" from "never ends" grows
+			// with it
+			ex.sim.MaxSteps += (n - 60) * (n - 60) * 20
+		}
 		ex.sim.TraceOn = TraceAll
 		ex.sim.OnUnsafeDie = ex.lockForDyingTask
 		if ex.cfg.Profile == "C15" {
@@ -657,12 +664,18 @@ func (ex *Exec) call(what string, fn func() error) (err error) {
 	defer ex.g.flushDeletes()
 	defer func() {
 		if r := recover(); r != nil {
+			if es, ok := r.(endlessScan); ok {
+				ex.violate("never-blocks-forever", "endless-scan:"+what, "%s never returned: more than %d storage calls in one API call (last: %s %s)", what, es.calls, es.kind, es.file)
+				err = fmt.Errorf("endless scan")
+				return
+			}
 			st := string(debug.Stack())
 			ex.violate("no-panic", "panic:"+panicClass(fmt.Sprint(r), st), "%s panicked: %v\n%s", what, r, trimStack(st))
 			err = fmt.Errorf("panic: %v", r)
 		}
 	}()
 	ex.g.reads, ex.g.maxRead = 0, 0
+	ex.g.beginCall()
 	return fn()
 }
 
